@@ -47,6 +47,16 @@ func rtInterleavings(r *core.Report, tier string) {
 				}))
 			})
 		},
+		// loop VALUES without a Delay in front: the runs share the very same For closure
+		"bare-loop": func(log *[]string) seq.Seq[int] {
+			return seq.Loop[int](seq.Bind[int](7, seq.Normal[int]))
+		},
+		"bare-nested-for": func(log *[]string) seq.Seq[int] {
+			return seq.Combine[int](
+				seq.For[int](nil, func() {}, seq.Combine[int](seq.Bind[int](1, seq.Normal[int]),
+					seq.While[int](func() bool { return false }, seq.Bind[int](2, seq.Normal[int])))),
+				seq.Return[int]())
+		},
 		"combine-breakable": func(log *[]string) seq.Seq[int] {
 			return seq.Combine[int](
 				seq.Breakable[int](seq.Bind[int](1, func() seq.Seq[int] { return seq.Break[int]() })),
